@@ -202,7 +202,22 @@ def impl_main(mode, fin, fout):
         ok, msg = exec_python(py)
         res["py_exec"] = [ok, msg]
         res["viol"] = viol
+        res["_texts"] = [cpp, py]
         out.append(res)
+    # the outputs of a file are a function of the file: converting the first file again, after all the others of this process,
+    # must give the same two texts (apart from the timestamp), which still describe the same model
+    first = next((i for i, r in enumerate(out) if "_texts" in r), None)
+    if first is not None and sum(1 for r in out if "_texts" in r) >= 2:
+        c = cases[first]
+        try:
+            cpp2 = ampgen2goofit(c["path"], ret_output=True)
+            py2 = ampgen2goofitpy(c["path"], ret_output=True)
+            if c20.canon_text(cpp2) != c20.canon_text(out[first]["_texts"][0]) or c20.canon_text(py2) != c20.canon_text(out[first]["_texts"][1]):
+                out[first]["viol"].append("converting the same file again after other files gives a different text")
+        except Exception as e:  # noqa: BLE001
+            out[first]["viol"].append("converting the same file again after other files raises " + type(e).__name__)
+    for r in out:
+        r.pop("_texts", None)
     Path(fout).write_text(json.dumps(out))
 
 
